@@ -159,14 +159,9 @@ def writer_rules(ctx):
     wr = [norm(n) for n in walk_no_nested(fi.node) if isinstance(n, ast.Expr) and norm(n).startswith("bfile.write")]
     ctx.check(wr == ["bfile.write(new_header.encode('ascii'))", "bfile.write(np.hstack(curr_data).tobytes())"], f"{P}.G6", site,
               "each box is written as its header then the fields' F-flattened data in field order", f"writes are {wr}")
-    # G7
-    loop = [n for n in walk_no_nested(fi.node) if isinstance(n, ast.For) and norm(n.iter) == "subcells_indexes"]
-    ok = False
-    if len(loop) == 1:
-        b = [norm(s) for s in loop[0].body]
-        ok = b[0] == "offset = bfile.tell()" and b[1] == "curr_offsets.append(offset)"
-    ctx.check(ok, f"{P}.G7", site, "the box offset is tell() taken before anything of the box is written",
-              "offset capture moved", where=loc(fi, loop[0]) if loop else None)
+    # G7 (provenance of the recorded offset)
+    from checks import writers
+    writers.rule_offset_capture(ctx, P, fi)
     # chunking: step >= 1 and chunks <= names
     cs = formulas.find_assign(fi, "chunk_size")
     nf = formulas.find_assign(fi, "nfiles")
@@ -259,6 +254,15 @@ def global_header_rules(ctx):
 
 
 def run(ctx):
+    # the planes interpolated per level are produced by slice_box: its window, span, normal-grid and position-case
+    # rules (C07) are necessary conditions of this property too
+    from checks import C07
+    old = C07.P
+    C07.P = P
+    try:
+        C07.slice_box_rules(ctx)
+    finally:
+        C07.P = old
     bylevel_rules(ctx)
     writer_rules(ctx)
     global_header_rules(ctx)
